@@ -111,7 +111,7 @@ def c17_2(c: Ctx) -> None:
         c.fail(u, f'{len(writes)} write calls (or a write in a loop)', 'an event does not produce exactly one WAL line')
         return
     w = writes[0]
-    arg = w.args[0] if w.args else None
+    arg = q.deref(u, w.args[0]) if w.args else None  # the line may be put together in a local first
     dumps = {}
     for n in own_nodes(u.node):
         if isinstance(n, ast.Assign) and isinstance(n.targets[0], ast.Name) and isinstance(n.value, ast.Call) and call_name(n.value) == 'model_dump_json':
